@@ -14,7 +14,7 @@ Init == /\ s \in Base..(Base + Span) /\ e \in Base..(Base + Span)
         /\ end = e /\ counter = 0 /\ acc = << >> /\ done = FALSE
 
 Once == /\ ~done /\ iv = "once"
-        /\ acc' = << [s |-> s, e |-> e] >> /\ done' = TRUE
+        /\ acc' = (IF s > e THEN << >> ELSE << [s |-> s, e |-> e] >>) /\ done' = TRUE      \* (repair D30: no period for an empty window)
         /\ UNCHANGED <<s, e, iv, last, end, counter>>
 
 LoopStep == /\ ~done /\ iv # "once"
